@@ -50,8 +50,15 @@ func CreateTypesTable(i interface{}) TypesTable {
 		if !v.IsValid() {
 			break
 		}
+		// The VM looks names up as string keys: the key type has to take one.
+		if !reflect.TypeOf("").AssignableTo(v.Type().Key()) {
+			break
+		}
 		for _, key := range v.MapKeys() {
 			value := v.MapIndex(key)
+			if key.Kind() == reflect.Interface {
+				key = key.Elem()
+			}
 			if key.Kind() == reflect.String && value.IsValid() && value.CanInterface() {
 				types[key.String()] = Tag{Type: reflect.TypeOf(value.Interface())}
 			}
